@@ -56,6 +56,10 @@ fn child() {
                 let d = step["d"].as_u64().unwrap();
                 let (mut c, flag) = RecCollector::new(d, FilterRec::from_json(&step["f"]), log.clone());
                 // a collector that emits an ERROR event at target "a" when it is destroyed (on whichever thread that happens)
+                fn on_reenter() {
+                    emit_event(1, "b");
+                }
+                c.reenter_hook = Some(on_reenter);
                 if step["drop_emit"].as_bool().unwrap_or(false) {
                     fn on_drop() {
                         emit_event(1, "a");
@@ -188,6 +192,9 @@ fn child() {
                 // `boom`: the receiving collector's callback panics after taking the event; the panic is caught around the
                 // emission (state kept by the dispatcher across the callback must survive the unwinding)
                 vh_common::rec::BOOM.store(step["boom"].as_bool().unwrap_or(false) && k == "event", Ordering::SeqCst);
+                // `reenter`: the receiving collector emits an ERROR event at target "b" from inside its callback
+                let reenter = step["reenter"].as_bool().unwrap_or(false) && k == "event";
+                vh_common::rec::REENTER.store(reenter, Ordering::SeqCst);
                 let r = ws.run(t, move |_| match k.as_str() {
                     "event" => {
                         emit_event(lvl, &tgt);
@@ -200,7 +207,21 @@ fn child() {
                     _ => json!(probe(lvl, &tgt)),
                 });
                 vh_common::rec::BOOM.store(false, Ordering::SeqCst);
-                let calls = drain(&log);
+                let fired = reenter && !vh_common::rec::REENTER.swap(false, Ordering::SeqCst);
+                let mut calls = drain(&log);
+                // the re-entrant emission (if the outer one was delivered): reported as an emission of its own after this one
+                let mut inner: Option<Value> = None;
+                if fired {
+                    let (lvl1, tgtb) = (1u64, "b");
+                    let first = calls.iter().position(|c| c["call"] == "event");
+                    let rest: Vec<u64> = calls.iter().enumerate().filter(|(i, c)| Some(*i) != first && c["call"] == "event" && c["lvl"] == lvl1 && c["tgt"] == tgtb)
+                        .map(|(_, c)| c["col"].as_u64().unwrap()).collect();
+                    inner = Some(json!({"ev": "emit", "t": t, "c": {"lvl": 1, "tgt": "b"}, "k": "event", "reentrant": true, "ret": true,
+                        "got": match rest.len() { 0 => json!(0), 1 => json!(rest[0]), _ => json!(-1) }}));
+                    if let Some(f) = first {
+                        calls.truncate(f + 1);
+                    }
+                }
                 // who received it: the collectors whose `event` / `new_span` ran for this emission
                 let want = if step["k"].as_str().unwrap_or("event") == "span" { "new_span" } else { "event" };
                 let got: Vec<u64> = calls.iter().filter(|c| c["call"] == want).map(|c| c["col"].as_u64().unwrap()).collect();
@@ -210,6 +231,11 @@ fn child() {
                     _ => json!(-1), // delivered more than once: never a legal observation
                 };
                 o["ret"] = r.unwrap_or(json!("panic"));
+                if let Some(i) = inner {
+                    o["ml"] = json!(ml());
+                    runner::child_emit(o);
+                    o = i;
+                }
             }
             e => panic!("unknown step {e}"),
         }
